@@ -35,6 +35,8 @@ Decided (design section 5, C08):
      G6-no-empty-buffer-to-encoder   end-of-data marker discipline: every hand-over to OutputFormat::write_buffer is unreachable when
                                       committed() of the handed-over Buffer (followed through swap / move / helper parameter) is 0 -- an empty
                                       block encodes to the empty string, i.e. the marker that only the closing path (G4, G2) may produce
+     G7-internal-buffer-items-committed every Buffer member called on the Writer's own buffer that reserves space either commits itself
+                                      (push_back) or is followed by commit() on every path (add_item alone leaves the object invisible)
      G5-flush-polls-future           do_flush polls the write future whenever the notification flag is set (check_for_exception shape)
  5   F1-output-queue-gets-pool-futures every push on a Queue<future<string>> passes the result of Pool::submit or the future of a local promise
      F3-encoder-exceptions-travel    no catch handler inside a functor class submitted to the pool completes without rethrowing
@@ -429,9 +431,10 @@ def _close_one(fb, R, rec, fn, key=None, depth=0):
     closed_env = {}
     for g in work_functions(fb, fn, 2):
         for n in g.all_nodes():
-            if n.get('k') == 'assign' and n.get('op') == '=':
-                c = E.carrier_of(g, n['lhs'])
-                v = E.const_of(g, n['rhs'])
+            st = E.store_of(g, n)
+            if st is not None:
+                c = E.carrier_of(g, st[0])
+                v = E.const_of(g, st[1])
                 if c is not None and c[0] == 'field' and v is not None:
                     closed_env[c] = E.fin(v)
 
@@ -500,7 +503,8 @@ def _close_one(fb, R, rec, fn, key=None, depth=0):
     if field is None:
         R.broken('%s: cannot identify the member returned by file_size()' % rec.q)
         return
-    assigns = [n for n in fn.all_nodes() if n.get('k') == 'assign' and E.carrier_of(fn, n['lhs']) == ('field', field)]
+    assigns = [n for n in fn.all_nodes() if (n.get('k') == 'assign' and E.carrier_of(fn, n['lhs']) == ('field', field))
+               or (E.store_of(fn, n) is not None and E.carrier_of(fn, E.store_of(fn, n)[0]) == ('field', field))]
     if not assigns:
         if not any(E.carrier_of(g, n['lhs']) == ('field', field) for n0 in fn.all_nodes() for g0 in helper_bodies(fb, fn, n0)
                    for g in work_functions(fb, g0, 2) for n in g.all_nodes() if n.get('k') == 'assign'):
@@ -839,6 +843,43 @@ def writer_rules(fb, R):
     if nwb == 0:
         R.broken('Writer never calls OutputFormat::write_buffer')
 
+    # ---- G7  what is put into the Writer's own buffer is committed (uncommitted data is invisible to do_write / do_flush)
+    BUF = 'osmium::memory::Buffer'
+    buf_fields = {f['q'] for f in rec.fields if f['tC'].replace('const ', '').strip() == BUF}
+
+    def adds_uncommitted(n):
+        """call of a Buffer member that reserves space in the buffer and does not commit it itself."""
+        if n.get('k') != 'call' or n.get('rcls') != BUF or 'u' not in n:
+            return False
+        for g in fb.by_usr.get(n['u'], [])[:1]:
+            reach = E.closure_fns(fb, [g], depth=4)
+            if not any(h.q == BUF + '::reserve_space' for h in reach):
+                return False
+            commits = [m['id'] for m in g.all_nodes() if m.get('k') == 'call' and m.get('q') == BUF + '::commit']
+            return not (commits and g.has_cfg and must_pass(g, g.entry, commits) is None)
+        return False
+    nadd = 0
+    for f in wfns:
+        for n in f.all_nodes():
+            if n.get('k') != 'call' or n.get('rcls') != BUF or n.get('recv') is None:
+                continue
+            rv = f.root_var(n['recv'])
+            if rv is None or rv[0] != 'field' or rv[1] not in buf_fields:
+                continue
+            if not any(h.q == BUF + '::reserve_space' for g in fb.by_usr.get(n.get('u'), [])[:1] for h in E.closure_fns(fb, [g], depth=4)):
+                continue
+            nadd += 1
+            ok = True
+            if adds_uncommitted(n):
+                commits = [m['id'] for m in f.all_nodes() if m.get('k') == 'call' and m.get('q') == BUF + '::commit'
+                           and m.get('recv') is not None and f.root_var(m['recv']) == rv]
+                ok = bool(commits) and must_pass_after(f, n['id'], commits) is None
+            R.check(ok, 'G7-internal-buffer-items-committed', '%s#%s' % (f.q, n['q'].rsplit('::', 1)[-1]), f.loc(n['id']),
+                    '%s puts data into the Writer\'s internal buffer without committing it on every path: do_write / do_flush only look at '
+                    'committed() data, so the object is silently dropped when it is the last one before close()' % n['q'])
+    if nadd == 0:
+        R.broken('Writer never adds anything to its internal buffer')
+
     # ---- G2
     ecs = fb.fns(EC)
     if not ecs:
@@ -877,8 +918,8 @@ def writer_rules(fb, R):
             continue
         t, hd, hb = h
         hn = nodes_in_handler(fn, hd)
-        p_st = lambda f, n: (n.get('k') == 'assign' and n.get('op') == '=' and E.carrier_of(f, n['lhs']) == ('field', status_q)
-                             and (f.sn(n['rhs']) or {}).get('q', '').endswith('::error'))
+        p_st = lambda f, n: (E.store_of(f, n) is not None and E.carrier_of(f, E.store_of(f, n)[0]) == ('field', status_q)
+                             and (f.sn(E.store_of(f, n)[1]) or {}).get('q', '').endswith('::error'))
         p_exq = lambda f, n: (n.get('k') == 'call' and n.get('q') == 'osmium::io::detail::add_to_queue'
                               and 'std::current_exception' in callees_deep(f, n['id']))
         p_eod = lambda f, n: n.get('k') == 'call' and n.get('q') == 'osmium::io::detail::add_end_of_data_to_queue'
@@ -959,8 +1000,8 @@ def writer_rules(fb, R):
         p_eod = _p_q('osmium::io::detail::add_end_of_data_to_queue')
         p_wend = _p_q(OUTPUT_FORMAT + '::write_end')
         p_dw = lambda f, n: n.get('k') == 'call' and n.get('q') in H
-        p_closed = lambda f, n: (n.get('k') == 'assign' and n.get('op') == '=' and (f.sn(n['rhs']) or {}).get('q', '').endswith('::closed')
-                                 and (f.sn(n['lhs']) or {}).get('q') == status_q)
+        p_closed = lambda f, n: (E.store_of(f, n) is not None and (f.sn(E.store_of(f, n)[1]) or {}).get('q', '').endswith('::closed')
+                                 and E.carrier_of(f, E.store_of(f, n)[0]) == ('field', status_q))
         eod = role_ids(fb, g, gn, p_eod)
         closed = role_ids(fb, g, gn, p_closed)
         ok = len(eod) == 1 and bool(role_ids(fb, g, gn, p_wend)) and bool(role_ids(fb, g, gn, p_dw))
@@ -1181,6 +1222,7 @@ def run(ctx):
     R.expect('G3-close-gets-future', 1)
     R.expect('G4-do-close-end-of-data-once', 1)
     R.expect('G6-no-empty-buffer-to-encoder', 2)
+    R.expect('G7-internal-buffer-items-committed', 1)
     R.expect('G5-flush-polls-future', 1)     # + check_for_exception while it is used
     R.expect('F1-output-queue-gets-pool-futures', 7)
     R.expect('F2-write-buffer-submits', 5)
